@@ -944,4 +944,110 @@ theorem subtypeSearch_head_test_dead (s : Refs) (sub : Nat) : ∀ fuel stack, su
           · exact hcon (by simpa using h)
           · exact hr h
 
+/-! ### Batch inserts: `insert_references` and `insert` with several entries -/
+
+/-- **A batch insert is the union with all of its entries** — whichever of them existed before, in
+whatever position, and however often an entry is repeated: afterwards the references are exactly
+the old ones plus every entry of the batch, and the reverse lookup is exact again. -/
+theorem R_insertRefs : ∀ (l : List (Nat × Nat × Nat)) (s s' : Refs), insertRefs s l = some s' →
+    (∀ x u y, R s' x u y ↔ (R s x u y ∨ (x, y, u) ∈ l)) ∧ (Inv s → Inv s') := by
+  intro l
+  induction l with
+  | nil => intro s s' h; simp [insertRefs] at h; subst h; simp
+  | cons e rest ih =>
+    intro s s' h
+    obtain ⟨a, b, t⟩ := e
+    unfold insertRefs at h
+    cases hi : insertRef s a b t with
+    | none => rw [hi] at h; cases h
+    | some s1 =>
+      rw [hi] at h
+      obtain ⟨h1, h2⟩ := ih s1 s' h
+      refine ⟨fun x u y => ?_, fun hinv => h2 (inv_insertRef hi hinv)⟩
+      rw [h1, R_insertRef hi, List.mem_cons]
+      constructor
+      · rintro ((hr | ⟨rfl, rfl, rfl⟩) | hm)
+        · exact Or.inl hr
+        · exact Or.inr (Or.inl rfl)
+        · exact Or.inr (Or.inr hm)
+      · rintro (hr | he | hm)
+        · exact Or.inl (Or.inl hr)
+        · cases he; exact Or.inl (Or.inr ⟨rfl, rfl, rfl⟩)
+        · exact Or.inr hm
+
+/-- the batch goes through exactly when it holds no reference from a node to itself -/
+theorem insertRefs_isSome : ∀ (l : List (Nat × Nat × Nat)) (s : Refs),
+    (insertRefs s l).isSome = true ↔ ∀ e ∈ l, e.1 ≠ e.2.1 := by
+  intro l
+  induction l with
+  | nil => intro s; simp [insertRefs]
+  | cons e rest ih =>
+    intro s
+    obtain ⟨a, b, t⟩ := e
+    unfold insertRefs
+    by_cases hab : a = b
+    · subst hab
+      have : insertRef s a a t = none := by simp [insertRef]
+      rw [this]; simp
+    · obtain ⟨s1, hs1⟩ := Option.isSome_iff_exists.1 ((insertRef_isSome s a b t).2 hab)
+      rw [hs1]; simp only []
+      rw [ih s1]
+      simp [hab]
+
+/-- consequently the order of the entries and repetitions do not matter -/
+theorem insertRefs_order_irrelevant (l l' : List (Nat × Nat × Nat)) (s s1 s2 : Refs)
+    (hl : ∀ e, e ∈ l ↔ e ∈ l') (h1 : insertRefs s l = some s1) (h2 : insertRefs s l' = some s2) :
+    ∀ x u y, R s1 x u y ↔ R s2 x u y := by
+  intro x u y
+  rw [(R_insertRefs l s s1 h1).1, (R_insertRefs l' s s2 h2).1, hl]
+
+/-- `References::insert` with several (node, type, direction) entries: every entry is added, forward
+entries as source → node, inverse ones as node → source -/
+theorem R_insertMany : ∀ (l : List (Nat × Nat × Bool)) (s s' : Refs) (src : Nat),
+    insertMany s src l = some s' →
+    (∀ x u y, R s' x u y ↔ (R s x u y ∨
+      ∃ e ∈ l, (if e.2.2 = true then x = e.1 ∧ u = e.2.1 ∧ y = src else x = src ∧ u = e.2.1 ∧ y = e.1))) ∧
+    (Inv s → Inv s') := by
+  intro l
+  induction l with
+  | nil => intro s s' src h; simp [insertMany] at h; subst h; simp
+  | cons e rest ih =>
+    intro s s' src h
+    obtain ⟨node, t, inv⟩ := e
+    unfold insertMany at h
+    cases hi : (if inv = true then insertRef s node src t else insertRef s src node t) with
+    | none => rw [hi] at h; cases h
+    | some s1 =>
+      rw [hi] at h
+      obtain ⟨h1, h2⟩ := ih s1 s' src h
+      have hone : ∀ x u y, R s1 x u y ↔ (R s x u y ∨
+          (if inv = true then x = node ∧ u = t ∧ y = src else x = src ∧ u = t ∧ y = node)) := by
+        intro x u y
+        cases inv with
+        | true => simp only [if_true] at hi ⊢; exact R_insertRef hi x u y
+        | false => simp only [Bool.false_eq_true, if_false] at hi ⊢; exact R_insertRef hi x u y
+      have hinv1 : Inv s → Inv s1 := by
+        intro hv
+        cases inv with
+        | true => simp only [if_true] at hi; exact inv_insertRef hi hv
+        | false => simp only [Bool.false_eq_true, if_false] at hi; exact inv_insertRef hi hv
+      refine ⟨fun x u y => ?_, fun hv => h2 (hinv1 hv)⟩
+      rw [h1, hone]
+      constructor
+      · rintro ((hr | he) | ⟨e, hm, he⟩)
+        · exact Or.inl hr
+        · exact Or.inr ⟨(node, t, inv), List.mem_cons_self, he⟩
+        · exact Or.inr ⟨e, List.mem_cons_of_mem _ hm, he⟩
+      · rintro (hr | ⟨e, hm, he⟩)
+        · exact Or.inl (Or.inl hr)
+        · cases hm with
+          | head => exact Or.inl (Or.inr he)
+          | tail _ hm => exact Or.inr ⟨e, hm, he⟩
+
+/-- non-vacuity: a batch whose first entry exists already still adds the other two -/
+example : ∃ s1 s2, insertRef empty 100 101 47 = some s1 ∧
+    insertRefs s1 [(100, 101, 47), (100, 102, 47), (102, 100, 35)] = some s2 ∧
+    hasRef s2 100 102 47 = true ∧ hasRef s2 102 100 35 = true := by
+  exact ⟨_, _, rfl, rfl, by decide, by decide⟩
+
 end OpcuaVerif.C28
